@@ -21,6 +21,7 @@ pub proof fn lemma_shr7(x: u128)
     assert((x >> 7) == x / 128 && (x >> 7) < 0x200_0000_0000_0000_0000_0000_0000_0000u128) by (bit_vector);
 }
 /// |step| <= max(m/128, 2): "by at most 1/128 of its value or 2 units"
+//@LEMMA C17 lemma_step_bounded |step| <= max(m/128, 2)
 pub proof fn lemma_step_bounded(fm: u128, after: bool, d: int)
     requires -128 <= d <= 127
     ensures -spec_max_movement(fm, after) <= spec_fee_step(fm, after, d) <= spec_max_movement(fm, after)
